@@ -835,6 +835,96 @@ def guarded_alternatives(fi, e, at, depth=6):
     return out
 
 
+def _defaulted_only(guards, KEYS):
+    """The guards imply `KEYS is Ellipsis` (the caller passed no key list)."""
+    return guarded_by(guards, lambda c: c.op is ast.Is and ((u(c.lhs) == KEYS and is_ellipsis(c.rhs)) or (u(c.rhs) == KEYS and is_ellipsis(c.lhs)))) \
+        or guarded_by(guards, lambda c: c.op is ast.Eq and u(c.lhs) == KEYS and is_ellipsis(c.rhs))
+
+
+def path_guards(fi, d, use, kills, stable=()):
+    """[(test, polarity)] of the branch heads (cfg.Assume) that EVERY path from
+    the definition site `d` to `use` avoiding the `kills` (the other
+    definitions of the same name) goes through: what is known in addition when
+    it is d's value that arrives at `use` (`x = A; if c: x = B; use(x)`: A
+    arrives only when c is false).  Tests over one of the `stable` names are
+    kept only if that name has the same reaching definitions at the test and
+    at `use`."""
+    kills = [k for k in kills if k is not d]
+    cfg = fi.cfg
+    if not cfg.reachable(d, use, avoiding=kills):
+        return []
+    out = []
+    for a in cfg.nodes:
+        if not isinstance(a, Assume) or a is d or a is use:
+            continue
+        if cfg.reachable(d, use, avoiding=kills + [a]):
+            continue
+        names = names_loaded(a.test)
+        if any(nm in names and fi.rd.defs_at(a.owner, nm) != fi.rd.defs_at(use, nm) for nm in stable):
+            continue
+        out.append((a.test, a.polarity))
+    return out
+
+
+def _binding_alternatives(fi, name_node, at, KEYS, depth=4):
+    """[(value, guards, site)] for a Name used at statement `at` whose reaching
+    definitions are all simple assignments: each assigned expression with the
+    branch conditions known to hold when that binding is the one that
+    arrives (guards of `at`, guards of the definition site, path guards).  A
+    value that is itself a Name is followed.  None when a definition is not a
+    simple assignment."""
+    out = []
+
+    def go(n, use, guards, d):
+        on = n if n in fi.stmt_of else orig(fi, n)
+        if on is None:
+            return False
+        try:
+            defs = fi.defs_of_use(on)
+        except Exception:
+            return False
+        if not defs or not all(isinstance(x, (ast.Assign, ast.AnnAssign)) for x in defs):
+            return False
+        for site in sorted(defs, key=lambda x: (x.lineno, x.col_offset)):
+            v = fi.def_value(site, on.id)
+            if v is None:
+                return False
+            g = guards + guards_of(fi, site) + path_guards(fi, site, use, list(defs), stable=(KEYS,))
+            if isinstance(v, ast.Name) and v.id != KEYS and d > 0:
+                sub = len(out)
+                if go(v, site, g, d - 1):
+                    continue
+                del out[sub:]
+            out.append((v, g, site))
+        return True
+    if not go(name_node, at, list(guards_of(fi, at)), depth):
+        return None
+    return out
+
+
+def _order_of_other_sequence(fi, e, KEYS):
+    """`[v for v in S if v in KEYS ...]` (also a generator / inside list() /
+    tuple()) where S does not depend on KEYS: the text of S.  The element order
+    and multiplicity of such a value are those of S - a different function of
+    KEYS than a copy of it, whatever S is."""
+    if isinstance(e, ast.Call) and call_name(e) in ('list', 'tuple') and len(e.args) == 1 and not e.keywords:
+        e = e.args[0]
+    sc = single_comp(e)
+    if sc is None:
+        return None
+    elt, tgt, it, ifs = sc
+    if not (isinstance(tgt, ast.Name) and isinstance(elt, ast.Name) and elt.id == tgt.id):
+        return None
+    if _depends_on(fi, it, KEYS):
+        return None
+    for c in ifs:
+        for a in conjuncts(c, True) or []:
+            if isinstance(a, Cmp) and a.op is ast.In and isinstance(a.lhs, ast.Name) and a.lhs.id == tgt.id and \
+                    isinstance(a.rhs, ast.Name) and a.rhs.id == KEYS:
+                return u(it)[:80]
+    return None
+
+
 def _depends_on(fi, e, name, depth=6, seen=None):
     """Data dependence (backward slice through the reaching definitions): may
     the value of expression `e` depend on the local `name`?"""
@@ -857,7 +947,17 @@ def _depends_on(fi, e, name, depth=6, seen=None):
             seen.add((id(s), n.id))
             v = fi.def_value(s, n.id)
             if v is None:
-                if name in names_loaded(s):
+                # a name bound by the header of a compound statement depends on that header only
+                if isinstance(s, (ast.With, ast.AsyncWith)):
+                    hdr = [i.context_expr for i in s.items]
+                elif isinstance(s, (ast.For, ast.AsyncFor)):
+                    hdr = [s.iter]
+                else:
+                    hdr = None
+                if hdr is not None:
+                    if any(_depends_on(fi, h, name, depth - 1, seen) for h in hdr):
+                        return True
+                elif name in names_loaded(s):
                     return True
             elif _depends_on(fi, v, name, depth - 1, seen):
                 return True
@@ -1301,17 +1401,37 @@ def d_load(ck, mod):
     ck.check(fi.cfg.dominates(loop, ret), 'C15.D3.fill', mod, loop, F, 'fill loop before return', 'the buffer is filled before it is returned',
              'the fill loop does not precede the return on every path')
     # keys never reordered when supplied by the caller
+    copy_forms = ['list(%s)' % KEYS, 'tuple(%s)' % KEYS, '[_K for _K in %s]' % KEYS, '%s[:]' % KEYS, 'list(%s).copy()' % KEYS]
+    order_msg = ('a caller-supplied key list must be used in the given order: redefining `keys` outside the `keys is Ellipsis` '
+                 'default (e.g. sorting it) returns rows - and their lengths - in an order the caller did not ask for')
     for s in assigns_to(fn, KEYS):
-        if guarded_by(guards_of(fi, s), lambda c: c.op is ast.Is and ((u(c.lhs) == KEYS and is_ellipsis(c.rhs)) or (u(c.rhs) == KEYS and is_ellipsis(c.lhs)))) \
-                or guarded_by(guards_of(fi, s), lambda c: c.op is ast.Eq and u(c.lhs) == KEYS and is_ellipsis(c.rhs)):
+        if _defaulted_only(guards_of(fi, s), KEYS):
             ck.ok('C15.D3.key-order', mod, s, u(s)[:120], 'keys are only defaulted (under `keys is Ellipsis`)')
             continue
         val = s.value if isinstance(s, (ast.Assign, ast.AnnAssign)) else None
-        v = classify(X(fi, val), ['list(%s)' % KEYS, 'tuple(%s)' % KEYS, '[_K for _K in %s]' % KEYS, '%s[:]' % KEYS, 'list(%s).copy()' % KEYS],
-                     scope={KEYS}) if val is not None else ('far', 1, None)
-        ck.decide(v, 'C15.D3.key-order', mod, s, F, u(s)[:120], 'keys are copied, not reordered',
-                  'a caller-supplied key list must be used in the given order: redefining `keys` outside the `keys is Ellipsis` '
-                  'default (e.g. sorting it) returns rows - and their lengths - in an order the caller did not ask for')
+        v = classify(X(fi, val), copy_forms, scope={KEYS}) if val is not None else ('far', 1, None)
+        if v[0] == 'far' and isinstance(val, ast.Name):
+            # the value is a name bound on several paths: decide every binding that can arrive here under
+            # the branch conditions that hold when it does
+            alts = _binding_alternatives(fi, val, s, KEYS)
+            if alts:
+                for e, guards, site in alts:
+                    what = '%s  <-  %s' % (u(s)[:60], u(site)[:100])
+                    if _defaulted_only(guards, KEYS):
+                        ck.ok('C15.D3.key-order', mod, site, what, 'this binding arrives only when `keys is Ellipsis` (default)')
+                        continue
+                    xe = X(fi, e, stop=(KEYS,))
+                    va = classify(xe, [KEYS] + copy_forms, scope={KEYS})
+                    if va[0] == 'far':
+                        other = _order_of_other_sequence(fi, e, KEYS)
+                        if other is not None:
+                            ck.bad('C15.D3.key-order', mod, site, F, what,
+                                   'the caller\'s keys only FILTER another sequence (%s): the rows come back in the order and multiplicity of that '
+                                   'sequence, not of the key list the caller gave. ' % other + order_msg)
+                            continue
+                    ck.decide(va, 'C15.D3.key-order', mod, site, F, what, 'keys are copied, not reordered', order_msg)
+                continue
+        ck.decide(v, 'C15.D3.key-order', mod, s, F, u(s)[:120], 'keys are copied, not reordered', order_msg)
     for c in calls_in(fn):
         if isinstance(c.func, ast.Attribute) and isinstance(c.func.value, ast.Name) and c.func.value.id == KEYS and \
                 c.func.attr in ('sort', 'reverse', 'pop', 'remove', 'insert', 'append', 'extend', 'clear'):
@@ -1698,6 +1818,61 @@ def _sounding_jobs(fi, call, sounder, snd_fn):
     return canon(out)
 
 
+_LIST_GROWERS = ('append', 'extend', 'insert', 'appendleft', 'add', 'put', 'put_nowait')
+
+
+def _sounding_order(ck, mod, fi, fn, F, L, sounder_of):
+    """`lengths[i]` is the length of file i: however the sounder is handed to
+    a pool, its results must be gathered in SUBMISSION order.  Two ways of
+    gathering are in completion order - which worker finishes first - and are
+    recognised here for every pool submission of the sounder:
+      * `imap_unordered`;
+      * one `apply_async(..., callback=<list>.append)` per file (inside a loop
+        or a comprehension): the pool's result thread runs the callbacks as
+        the results arrive; the sounder returns a bare length, so the file a
+        result belongs to cannot be recovered from the list afterwards.
+    Anything else (apply_async + `.get()` in order, an executor ...) is left
+    to the recognition of the sounding jobs (incomplete when unknown)."""
+    rule = 'C15.D3.parallel.sounding-order'
+    why = ('the sounded lengths must come back in file order whatever worker finishes first: `lengths[i]` sizes and positions '
+           'file i (offset = sum(lengths[:i])), and the total-frames check cannot see a permutation')
+    for c2 in calls_in(fn):
+        if not (isinstance(c2.func, ast.Attribute) and sounder_of(c2) is not None):
+            continue
+        kind = c2.func.attr
+        if kind == 'imap_unordered':
+            ck.bad(rule, mod, c2, F, 'pool.imap_unordered(sound_trajectory, ...)', 'imap_unordered yields the lengths in completion order. ' + why)
+            continue
+        if kind in MAPS_ORDERED:
+            ck.ok(rule, mod, c2, 'pool.%s(sound_trajectory, ...)' % kind, 'order-preserving pool call')
+            continue
+        if kind != 'apply_async':
+            continue
+        cb = kwarg(c2, 'callback')
+        if cb is None and len(c2.args) >= 4 and not any(isinstance(a, ast.Starred) for a in c2.args[:4]):
+            cb = c2.args[3]
+        if cb is None or (isinstance(cb, ast.Constant) and cb.value is None):
+            continue
+        cbr = resolve(fi, cb)
+        many = enclosing(mod, c2, (ast.For, ast.While) + _COMPS) is not None
+        if not (isinstance(cbr, ast.Attribute) and cbr.attr in _LIST_GROWERS and isinstance(cbr.value, ast.Name)) or not many:
+            ck.missing(rule, 'what the callback of apply_async(sound_trajectory, ...) does with the result: %s' % u(cb)[:80])
+            continue
+        N = cbr.value.id
+        flows = N == L
+        if not flows:
+            for s in assigns_to(fn, L):
+                val = s.value if isinstance(s, (ast.Assign, ast.AnnAssign, ast.AugAssign)) else None
+                if val is not None and _depends_on(fi, val, N):
+                    flows = True
+        if flows:
+            ck.bad(rule, mod, c2, F, 'pool.apply_async(sound_trajectory, ..., callback=%s) per file' % u(cbr),
+                   'the callbacks of the per-file tasks grow `%s` in COMPLETION order (the pool runs a callback when its task finishes), and `%s` '
+                   'becomes the lengths. ' % (N, N) + why)
+        else:
+            ck.missing(rule, 'where the results collected by callback=%s go' % u(cbr))
+
+
 def d_concat(ck, mod):
     rule = 'C15.D3.parallel'
     F = 'load_as_concatenated'
@@ -1932,6 +2107,7 @@ def d_concat(ck, mod):
         if isinstance(f, ast.Call) and tail(f) == 'partial' and f.args and isinstance(f.args[0], ast.Name) and f.args[0].id == SND:
             return f
         return None
+    _sounding_order(ck, mod, fi, fn, F, L, sounder_of)
     sm = [c2 for c2 in calls_in(fn) if isinstance(c2.func, ast.Attribute) and c2.func.attr in MAPS and sounder_of(c2) is not None]
     jobs = _sounding_jobs(fi, sm[0], sounder_of(sm[0]), ck.repo.mod(LO).func(SND)) if len(sm) == 1 else None
     if jobs is None:
@@ -2125,15 +2301,32 @@ def _worker(ck, mod, rule, idx):
     SPEC, SHP = ps[0], ps[1]
     fields = {}
     up = None
+
+    def spec_field(v):
+        """i when `v` is `spec[i]` (constant non-negative i), else None"""
+        if isinstance(v, ast.Subscript) and isinstance(v.value, ast.Name) and v.value.id == SPEC:
+            i = const_value(v.slice)
+            if isinstance(i, int) and not isinstance(i, bool) and i >= 0:
+                return i
+        return None
     for s in walk_local(fw):
-        if isinstance(s, ast.Assign) and isinstance(s.value, ast.Name) and s.value.id == SPEC and isinstance(s.targets[0], (ast.Tuple, ast.List)) \
-                and all(isinstance(e, ast.Name) for e in s.targets[0].elts):
+        if not (isinstance(s, ast.Assign) and len(s.targets) == 1):
+            continue
+        tg = s.targets[0]
+        if isinstance(s.value, ast.Name) and s.value.id == SPEC and isinstance(tg, (ast.Tuple, ast.List)) \
+                and all(isinstance(e, ast.Name) for e in tg.elts):
             up = s
-            for i, e in enumerate(s.targets[0].elts):
+            for i, e in enumerate(tg.elts):
                 fields[i] = e.id
-        elif isinstance(s, ast.Assign) and isinstance(s.targets[0], ast.Name) and isinstance(s.value, ast.Subscript) and \
-                isinstance(s.value.value, ast.Name) and s.value.value.id == SPEC and isinstance(const_value(s.value.slice), int):
-            fields[const_value(s.value.slice)] = s.targets[0].id
+        elif isinstance(tg, ast.Name) and spec_field(s.value) is not None:
+            fields[spec_field(s.value)] = tg.id
+            up = up or s
+        elif isinstance(tg, (ast.Tuple, ast.List)) and isinstance(s.value, (ast.Tuple, ast.List)) and len(tg.elts) == len(s.value.elts) \
+                and all(isinstance(e, ast.Name) for e in tg.elts) and all(spec_field(v) is not None for v in s.value.elts):
+            # parallel assignment `a, b, c = spec[0], spec[1], spec[2]`: the right-hand side reads
+            # only the parameter, so it equals the element-wise assignments
+            for e, v in zip(tg.elts, s.value.elts):
+                fields[spec_field(v)] = e.id
             up = up or s
     if idx is None:
         idx = {'off': 0, 'fn': 1, 'args': 2}
@@ -2169,7 +2362,9 @@ def _worker(ck, mod, rule, idx):
     ck.decide(v, rule + '.window', mod, s, F, u(s), 'a worker writes exactly arr[position:position+len(xyz)]',
               'each worker must store only arr[position:position + len(xyz)] = xyz (disjoint windows)')
     # what is stored: the coordinates of this file loaded with its own kwargs
-    vr = resolve(fi, V)
+    # (which expression the stored name stands for: temporaries for the loaded trajectory are looked through,
+    # each bound once - the file is still read once, at the definition)
+    vr = xexpand(fi, V, stop=stop_w, pure=False)
     ok = False
     if isinstance(vr, ast.Attribute) and vr.attr == 'xyz' and isinstance(vr.value, ast.Call) and call_name(vr.value) == 'md.load':
         ld = vr.value
